@@ -137,7 +137,7 @@ TrNs == /\ l <= Len(Rec) /\ ev.ev \in {"ns_ref", "switch_tns"} /\ l' = l + 1
                 ELSE LET o == SwitchOutcome(TopDoc, ev.uri)
                          d2 == SwitchTns(TopDoc, ev.uri, BaseOfUri(ev.uri), Dev)
                      IN /\ docs' = SetTop(d2)
-                        /\ conf' = (conf /\ o = ev.outcome /\ (o = "already" \/ Label(d2.cur) = ev.abbr))
+                        /\ conf' = (conf /\ o = ev.outcome /\ (d2.cur = None \/ Label(d2.cur) = ev.abbr))
         /\ UNCHANGED <<cur, rd, ret, nodes, retn, wconf>> /\ UNCHANGED WVars
 
 TrWritten ==
